@@ -181,10 +181,14 @@ LEVEL_TEXT = ("C13_<importer>_faithful and C13_<importer>_end_to_end (Coq): for 
               "returned record (also before an error) has at least one field and the required number; C13_csv_items_shape: what the "
               "importer models take (records, then at most one failure item at the end) is what the reader model yields on any "
               "file; C13_csv_items_of_written: for a canonically written statement the items are its records, so the importer "
-              "theorems speak about the bytes of that file.")
-LEVEL_NOTE = ("Trusted: kernel, extraction, the harness' generators and runner, Go's json/charset readers (observed, not modelled; "
+              "theorems speak about the bytes of that file.  supercard's reader (Model/CsvLatin1.v): C13_latin1_decode_total (a "
+              "byte string decodes to a byte string of one or two bytes per byte), C13_latin1_byte_utf8 (each byte to the UTF-8 "
+              "encoding of the code point with its number), C13_latin1_decode_ascii (bytes below 0x80 unchanged), "
+              "C13_latin1_decode_injective; C13_csv_set_total, C13_csv_set_nil, C13_csv_items_supercard_shape for the reader "
+              "whose FieldsPerRecord is assigned before calls of Read (2, 13, then -1).")
+LEVEL_NOTE = ("Trusted: kernel, extraction, the harness' generators and runner, Go's json reader (viac; observed, not modelled) and charmap.ISO8859_1 (hand-modelled since ext-sc, tied by csv-records on the supercard cases; "
               "encoding/csv is modelled since ext-csv: Model/Csv.v, tied by C13.csv on 10^4 byte strings per run - 450 000 more with "
-              "three other seeds agreed - and by the verdict csv-records on every case of nine importers; model mutations `trailing "
+              "three other seeds agreed - and by the verdict csv-records on every case of ten importers (supercard since ext-sc); model mutations `trailing "
               "CR kept`, `U+3000 no space`, `closing quote at end of input needs LazyQuotes` give 156, 234 and 68 disagreements in 10^4), the "
               "printer model.  The verdict that the output is right is, for all eleven importers, an extracted Coq definition proved "
               "equal to what the importer model prints (C13_<importer>_stdout), evaluated on every generated well-formed statement "
